@@ -179,7 +179,8 @@ def run(ctx):
                 ok = False
                 for t, v in eqs:
                     ops = (t[2], t[3])
-                    has_code = any(o == ('int', codeval) or o == ('int', [c for n, c in st_codes.items() if n == name][0]) for o in ops)
+                    has_code = any(o == ('int', codeval) or o == ('int', [c for n, c in st_codes.items() if n == name][0])
+                                   or (is_agg(o, 'ShapeType') and o[2] == name) for o in ops)
                     has_self = any(absint.contains(o, s[-1]) for o in ops for s in stcalls)
                     truth = (v != 0 and v != ('not', ())) if t[1] == 'Eq' else (v == 0)
                     if isinstance(v, tuple):
